@@ -61,6 +61,11 @@ def gen(ctx):
             if not chunks:
                 chunks = [b'']
             lines.append('rs.enc %d %s' % (n, ','.join(c.hex() if c else '-' for c in chunks)))
+    # two coders of the same parity length alive at once, writes interleaved (every n)
+    for n in range(2, 69):
+        for _ in range(1 if ctx.tier == 'quick' else 6):
+            ma, mb = r.bytes(r.range(1, 80)), r.bytes(r.range(1, 80))
+            lines.append('rs.enc2 %d %s %d %s' % (n, ma.hex(), r.range(0, len(ma)), mb.hex()))
     if ctx.tier == 'thorough':
         # spread the 67 heavy enumeration lines evenly so that the parallel chunks of the runner are balanced
         step = max(1, len(lines) // 67)
@@ -78,7 +83,7 @@ def canon(s):
         return 'err'
     if s.startswith('panic'):
         return 'panic'
-    return ' '.join(s.split()[:2])
+    return ' '.join(s.split()[:3]) if len(s.split()) >= 3 and len(s.split()[1]) == len(s.split()[2]) else ' '.join(s.split()[:2])
 
 
 def oracle(ctx, lines, out):
@@ -98,6 +103,13 @@ def oracle(ctx, lines, out):
                 key = 'enc:n=%d' % n if o.split()[:2] != e.split()[:2] else 'enc-purity:n=%d' % n
                 v.append({'key': key, 'lines': [l], 'expect': e, 'got': o,
                           'detail': 'coder %d on message %s gives `%s`, remainder of msg*x^n mod g_n is `%s`' % (n, msg.hex()[:60], o, e)})
+        elif t[0] == 'rs.enc2':
+            n = int(t[1])
+            ma, mb = bytes.fromhex(t[2]), bytes.fromhex(t[4])
+            e = 'ok %s %s' % (gf256.parity(n, ma).hex(), gf256.parity(n, mb).hex())
+            if o != e:
+                v.append({'key': 'enc-two-coders:n=%d' % n, 'lines': [l], 'expect': e, 'got': o,
+                          'detail': 'two coders of parity length %d used at the same time (second created after %s bytes of the first message): sums `%s`, the remainders are `%s`' % (n, t[3], o[:80], e[:80])})
         elif t[0] == 'rs.basis':
             if ' bad=0' not in o:
                 n = int(t[1])
@@ -111,6 +123,8 @@ def oracle(ctx, lines, out):
 
 def nontrivial(line, out):
     t = line.split()
+    if t[0] == 'rs.enc2':
+        return True
     if t[0] == 'rs.enc':
         return any(c not in '0,-' for c in t[2])
     return t[0] == 'rs.basis'
